@@ -11,7 +11,7 @@ import (
 )
 
 func init() {
-	register(&Rule{ID: "E-TYPECHECK", Props: []string{"C02", "C13", "C08"}, Floor: 79,
+	register(&Rule{ID: "E-TYPECHECK", Props: []string{"C02", "C13", "C08", "C20", "C15"}, Floor: 79,
 		Doc: "in every built-in helper that can fail (results (T, error)), the ok of every comma-ok type assertion and of every toDecimal call is tested, and the failure edge cannot reach a success return before another type test: every return reached first carries *InvalidTypeError (or the error type the table names for that helper); helpers for which the specification turns a mismatch into null/false are listed one by one",
 		Run: ruleETypeCheck})
 	register(&Rule{ID: "E-TOINT", Props: []string{"C02", "C08", "C14"}, Floor: 3,
@@ -95,7 +95,7 @@ func hasTypeTest(b *ssa.BasicBlock) bool {
 			}
 			// a predicate of the repository that type-tests what it is given (isFloatArray(a)): the branch on its result is
 			// a type test of its own
-			if cf := calleeOf(&x.Call); cf != nil && len(cf.Blocks) > 0 && cf.Pkg == b.Parent().Pkg && cf.Signature.Results().Len() == 1 && isBoolType(cf.Signature.Results().At(0).Type()) && predicateTestsTypes(cf) {
+			if cf := calleeOf(&x.Call); cf != nil && len(cf.Blocks) > 0 && cf.Pkg == b.Parent().Pkg && cf.Signature.Results().Len() >= 1 && isBoolType(cf.Signature.Results().At(cf.Signature.Results().Len()-1).Type()) && predicateTestsTypes(cf) {
 				return true
 			}
 			// a library search over the elements with a type-testing predicate (slices.IndexFunc(a, isNotString))
@@ -215,8 +215,12 @@ func ruleETypeCheck(p *Program, r *Reporter) {
 				continue
 			}
 			if tt.ok == nil {
-				if isExempt {
+				if isExempt && isNodeType(tt.src.Type()) {
 					r.Trivial(tt.at.Pos(), key, "exempt: "+exempt)
+				} else if isExempt {
+					// a helper for which a mismatch is not an error still has to decide it (null, false): with the ok
+					// result discarded the zero value of the asserted type is used as if it were the value
+					r.Bad(instrPos(tt.at), key, "the ok result of the type test is discarded: a value of the wrong type is used as the zero value of the asserted type instead of yielding the result the specification gives for a mismatch ("+exempt+")")
 				} else {
 					r.Bad(instrPos(tt.at), key, "the ok result of the type test is discarded: a value of the wrong type is used as the zero value instead of raising invalid-type")
 				}
@@ -231,8 +235,10 @@ func ruleETypeCheck(p *Program, r *Reporter) {
 			}
 			if len(ifs) == 0 {
 				// ok may feed a phi / return directly (e.g. helper returning the bool)
-				if isExempt {
+				if isExempt && (isNodeType(tt.src.Type()) || (tt.ok.Referrers() != nil && len(*tt.ok.Referrers()) > 0)) {
 					r.Trivial(tt.at.Pos(), key, "exempt: "+exempt)
+				} else if isExempt {
+					r.Bad(instrPos(tt.at), key, "the ok result of the type test is never used: a value of the wrong type is used as the zero value of the asserted type instead of yielding the result the specification gives for a mismatch ("+exempt+")")
 				} else {
 					r.Bad(instrPos(tt.at), key, "the ok result of the type test never decides a branch")
 				}
@@ -249,6 +255,12 @@ func ruleETypeCheck(p *Program, r *Reporter) {
 						return
 					}
 					seen[b] = true
+					if body, isHeader := loops[b]; !isExempt && (!first && b == iff.Block() || isHeader && body[iff.Block()]) {
+						// round the loop and back at this very test: the element that failed it was skipped
+						verdict = "bad"
+						detail = "the failure edge goes round the loop to the same test on the next element: an element of the wrong type is skipped instead of raising invalid-type"
+						return
+					}
 					if hasTypeTest(b) || loopTestsElements(loops, b) {
 						// another test before any return: that test carries its own obligation
 						if verdict == "" {
